@@ -292,7 +292,7 @@ fn poll(c: &mut C) -> Result<(), Violation> {
             if arp.op == 1 && arp.tpa == S_IP {
                 c.arp_pending = true;
                 // resolving the server's address is the first step of a unicast renewal attempt
-                if c.configured.is_some() && c.renew_seen.is_none() {
+                if (c.configured.is_some() || ingested_valid_now) && c.renew_seen.is_none() {
                     c.renew_seen = Some(c.now);
                 }
             }
@@ -323,7 +323,9 @@ fn poll(c: &mut C) -> Result<(), Violation> {
         if mt == DHCP_REQUEST {
             c.last_req_xid = Some(d.xid);
             // (3) renew (unicast) before rebind (broadcast) before expiry
-            if c.configured.is_some() && d.ciaddr != [0; 4] {
+            // (with T1 = T2 = 0 the first renewing / rebinding REQUEST leaves in the very poll that took the ACK in,
+            // before the application has seen the Configured event)
+            if (c.configured.is_some() || ingested_valid_now) && d.ciaddr != [0; 4] {
                 let bcast = ip.dst.is_limited_broadcast();
                 if bcast {
                     if c.rebind_seen.is_none() {
@@ -365,8 +367,9 @@ fn poll(c: &mut C) -> Result<(), Violation> {
             // timers, leases of at least 4 s and a node polled per poll_at ever since it was bound
             if c.props.has("C18") && c.configured.is_some() && c.exact_since_bound && c.all_plain {
                 if let (Some(b), Some(dl)) = (c.bound_at, c.deadline_strict) {
-                    let default_timers = c.acks.last().map(|a| a.1.default_timers).unwrap_or(false);
-                    if c.now >= dl && dl - b >= 4_000_000 && default_timers && c.renew_seen.is_none() && c.rebind_seen.is_none() {
+                    // (whatever T1 / T2 the server named: the client uses them only when T1 < T2 < lease and falls back
+                    // to fractions of the lease otherwise, so its first attempt is always due before the lease ends)
+                    if c.now >= dl && dl - b >= 4_000_000 && c.renew_seen.is_none() && c.rebind_seen.is_none() {
                         return Err(viol("C18", "renew-before-rebind", "C18.order/lease-expired-without-any-renewal-attempt", format!("the lease bound at {} us ran out at {} us ({} us) without a single renewing or rebinding REQUEST", b, dl, dl - b)));
                     }
                 }
